@@ -372,7 +372,7 @@ def guard_dominates(body, tb, accept_blocks, guard_pred, passing_value):
     edges, blocks, guards = passing_edges(body, tb, guard_pred, passing_value)
     if not blocks:
         return False, 'no branch on the guard found'
-    reach = body.reachable(0, removed_edges=edges)
+    reach = reach_under(body, tb, {}, removed_edges=edges)      # flags / Option values set on the way are followed
     bad = [a for a in accept_blocks if a in reach]
     if bad:
         return False, 'accept site(s) at bb%s reachable without passing the guard (guard switches at bb%s)' % (bad, blocks)
@@ -465,6 +465,10 @@ def reach_under(body, tb, env, start=0, stop_blocks=(), removed_edges=()):
         outside = executed_before(body, start)
     seen = {start}
     saved = tb.allowed
+    # facts[b]: discriminant values established by the switches on EVERY explored path to b within the current loop iteration
+    # (`if let Some(x) = opt` followed later by a `match opt` sees the same answer). Dropped at loop headers.
+    facts = {start: {}}
+    headers = _back_edge_targets(body)
     try:
         changed = True
         while changed:
@@ -476,10 +480,26 @@ def reach_under(body, tb, env, start=0, stop_blocks=(), removed_edges=()):
                     continue
                 t = body.term(b)
                 succs = body.succ(b)
+                edge_fact = {}
                 if t and t['k'] == 'switch':
                     n = len(body.blocks[b]['stmts'])
                     dt = tb.operand_term(t['discr'], b, n)
-                    v = eval_bool(dt, env)
+                    fb = facts.get(b) or {}
+                    if fb:
+                        env_b = dict(fb)
+                        env_b.update(env)
+                    else:
+                        env_b = env
+                    v = eval_bool(dt, env_b)
+                    sd = strip_sites(dt)
+                    count = {}
+                    for val, bb in t['targets']:
+                        count[bb] = count.get(bb, 0) + 1
+                    for val, bb in t['targets']:
+                        if count[bb] == 1 and bb != t['otherwise']:
+                            edge_fact[bb] = (sd, val)
+                    if t.get('dty') == 'bool' and len(t['targets']) == 1 and t['targets'][0][0] == 0 and t['otherwise'] != t['targets'][0][1]:
+                        edge_fact[t['otherwise']] = (sd, 1)
                     if v is not None:
                         iv = int(v) if isinstance(v, bool) else v
                         taken = None
@@ -490,12 +510,39 @@ def reach_under(body, tb, env, start=0, stop_blocks=(), removed_edges=()):
                             taken = t['otherwise']
                         succs = [taken]
                 for s2 in succs:
-                    if s2 not in seen and (b, s2) not in removed_edges:
+                    if (b, s2) in removed_edges:
+                        continue
+                    nf = dict(facts.get(b) or {})
+                    if s2 in edge_fact and not _has_phi(edge_fact[s2][0]):
+                        k_, v_ = edge_fact[s2]
+                        nf[k_] = bool(v_) if (t.get('dty') == 'bool') else v_
+                    if s2 in headers:
+                        nf = {}
+                    if s2 not in seen:
                         seen.add(s2)
+                        facts[s2] = nf
                         changed = True
+                    else:
+                        old = facts.get(s2) or {}
+                        meet = {k_: v_ for k_, v_ in old.items() if k_ in nf and nf[k_] == v_}
+                        if meet != old:
+                            facts[s2] = meet
+                            changed = True
     finally:
         tb.allowed = saved
     return seen
+
+
+def _back_edge_targets(body):
+    hs = getattr(body, '_back_targets', None)
+    if hs is None:
+        hs = set()
+        for b in body.normal_blocks():
+            for s in body.succ(b):
+                if body.dominates(s, b):
+                    hs.add(s)
+        body._back_targets = hs
+    return hs
 
 
 def ret_values_under(body, tb, env, start=0, stop_blocks=()):
